@@ -828,7 +828,7 @@ func (e *Engine) execSend(s *State, x *ssa.Send) {
 	cc := e.heapGet(s, "CC!", "(Array Int Int)")
 	room := app("<", app("select", cl, c), app("select", cc, c))
 	private := s.FreshRefs[c]
-	ev := Event{Kind: "send", What: x.Chan.Name(), Pos: e.P.Pos(x.Pos()), Instr: x, Blocking: true, Extra: map[string]string{"room": room, "chan": c}}
+	ev := Event{Kind: "send", What: x.Chan.Name(), Pos: e.P.Pos(x.Pos()), Instr: x, Blocking: true, Extra: map[string]string{"room": room, "chan": c}, Args: []*Val{e.val(s, x.X)}, ArgTypes: []types.Type{x.X.Type()}}
 	if private {
 		ev.Extra["private"] = "1"
 	}
@@ -912,6 +912,16 @@ func (e *Engine) execSelect(s *State, x *ssa.Select) []*State {
 	r := &Val{Tup: []*Val{{L: []string{idx}}}}
 	ok := e.declare(s, "selok", "Bool")
 	ev.Extra["idx"], ev.Extra["ok"] = idx, ok
+	nsend := 0
+	for si, st := range x.States {
+		if st.Dir == types.SendOnly {
+			ev.Extra[fmt.Sprintf("sendchan%d", nsend)] = e.val(s, st.Chan).L[0]
+			ev.Extra[fmt.Sprintf("sendcond%d", nsend)] = eq(idx, num(int64(si)))
+			ev.Args = append(ev.Args, e.val(s, st.Send))
+			ev.ArgTypes = append(ev.ArgTypes, st.Send.Type())
+			nsend++
+		}
+	}
 	e.event(s, ev)
 	r.Tup = append(r.Tup, &Val{L: []string{ok}})
 	ri := 0
@@ -1058,7 +1068,7 @@ func (e *Engine) chanInterfere(s *State, ch *Val) {
 	if strings.Contains(e.C.Containers[ch.Src], "sendlocked") && e.guardHeldFor(s, ch) {
 		s.assume(app("<=", n, app("select", cl, c)))
 	}
-	e.heapSet(s, "CL!", "(Array Int Int)", app("store", cl, c, n))
+	e.interfere(s, "CL!", "(Array Int Int)", c, n)
 }
 
 // guardHeldFor: is the guard lock protecting the field this value was loaded from held (any mode)?
